@@ -242,6 +242,23 @@ def run_revolve(col):
         npts_expected = (n - 1 if phi == 360 else n) * 4
         col.add("C16.O3", "revolve quad phi=%d n=%d" % (phi, n), "revolved hexahedra are positively oriented (all corner Jacobians > 0); a full revolution re-uses the first layer", not bad and tn == "hexahedron"
                 and cn.shape == (n - 1, 8) and pn.shape[0] == npts_expected and int(cn.max()) == npts_expected - 1, "cells %s points %s bad %s" % (cn.shape, pn.shape, bad))
+    # the section angles given one by one (non-uniform; their number differs from the default / given n): one layer of cells per sector,
+    # every point layer used, the last layer at the last angle (closed ring when that is 360)
+    for angles, n in (([0, 30, 90, 120], 11), ([0, 90, 180, 270, 360], 3), ([0, 45, 90], 2), (np.array([0, 60, 90, 150, 180]), 11)):
+        def chk_angles(angles=angles, n=n):
+            pn, cn, tn = it.call(revolve, [X, cells, "quad"], dict(n=n, phi=angles, axis=0))
+            pn = npmodel.to_obj(pn)
+            cn = npmodel.to_int_array(np.asarray(cn))
+            closed = int(angles[-1]) == 360
+            nlay = len(angles) - 1 if closed else len(angles)
+            if cn.size and int(cn.max()) >= pn.shape[0]:
+                return False, "mesh/_tools.py revolve: cells refer to point %d but only %d points are returned" % (int(cn.max()), pn.shape[0])
+            bad = [c for c in range(cn.shape[0]) if not all(positive(v) for v in corner_dets(it, "Hexahedron", [list(pn[i]) for i in cn[c]]))]
+            used = sorted(set(int(v) for v in cn.reshape(-1)))
+            okk = tn == "hexahedron" and cn.shape == (len(angles) - 1, 8) and pn.shape[0] == 4 * nlay and used == list(range(4 * nlay)) and not bad
+            return okk, "mesh/_tools.py revolve: %d cells for %d sectors, %d points (%d layers expected), %d points used, badly oriented cells %s" % (
+                cn.shape[0], len(angles) - 1, pn.shape[0], nlay, len(used), bad)
+        col.check("C16.O3", "revolve quad phi=%s n=%d" % (list(int(a) for a in angles), n), "an array of section angles gives one layer of positively oriented cells per sector, whatever n is; no unused points", chk_angles)
     Xl = npmodel.array([[1], [3]], dtype=npmodel.DType("float"))
     pn, cn, tn = it.call(revolve, [Xl, np.array([[0, 1]]), "line"], dict(n=3, phi=90, axis=0))
     pn = npmodel.to_obj(pn)
